@@ -76,7 +76,13 @@ def check (j : Json) : Except String Verdict := do
     let mode ← jStr j "mode"
     let res ← jStr obs "result"
     let want := match mode with
-      | "init-missing" => "panic=false err=true inited=false again: panic=false err=true inited=false again: panic=false err=true inited=false"
+      | "init-missing" =>
+        -- three calls of Init on an environment that is incomplete each time (model: `Bootstrap.initRun`)
+        let builds : List (Except Bootstrap.BootErr Unit) := [.error .noName, .error .noNamespace, .error .noNamespace]
+        let parts := (List.range builds.length).map (fun i =>
+          let (fin, oks) := Bootstrap.initRun (none : Option Unit) (builds.take (i + 1))
+          s!"panic=false err={!(oks.getLast?.getD true)} inited={fin.isSome}")
+        " again: ".intercalate parts
       | "set-twice" => "set1=true set2=true used=first init=true inited=true"
       | _ => "?"
     return { nontrivial := true
